@@ -1,4 +1,6 @@
-\* C01 quick: events = own props {<>, a, b, aa, ab} x extent {none, point, range} x ambient {<>, a, b, ba} x clock {none, 7};
+\* C01 quick: events = own props {<>, a, b, aa, ab} x extent {none, point, forward / empty / inverted range} x ambient {<>, a, b, ba}
+\* x clock {none, 7}; entries rt, Emitter-for-Runtime, emit_core::emit, emit!, info!, emit!(evt: Event), emit!(evt: evt!(..)),
+\* Span / Metric events, span guards (programmatic and new_span!, clock readings forward / equal / backwards), direct;
 \* E: every event x 11 leaf predicates as runtime filter (entries rt, emit!, emit!(evt:), direct; 3 predicates for
 \*    emit_core::emit and Emitter-for-Runtime) and as call-site `when` filter over a rejecting runtime filter;
 \* F: all filter trees of depth <= 2 over {true,false} (1009) and depth <= 1 over 4 predicates, as runtime and as call-site filter;
